@@ -90,7 +90,7 @@ func (e *Env) getErrorRules(l *facts.Level, wantSentinel func(kind string) []str
 	}
 	nNil := 0
 	for _, lf := range leaves {
-		cons := fmt.Sprintf("%s path returning at %s", who, e.P.Pos(lf.Pos))
+		cons := e.pathName(who, lf)
 		if len(lf.Ret) != 1 {
 			continue
 		}
